@@ -141,8 +141,13 @@ def strategy(tier):
             raw = draw(st.lists(st.one_of(cands, cands, ident, st.sampled_from(foreign)), min_size=1, max_size=4))
             names, used = [], set()
             for i, n in enumerate(raw):
-                a = draw(asname)
-                if a is not None:
+                a = draw(st.one_of(asname, asname, st.sampled_from(["$mod_", "_$mod", "$mod", "d42_", "$last_"])))
+                if a is not None and "$" in a:
+                    # hand-written aliases often carry the module's name: valera_validate, district42_schema ...
+                    m = module or "pkg"
+                    a = a.replace("$mod", m.replace(".", "_")).replace("$last", m.split(".")[-1])
+                    a = a + n if a.endswith("_") else a
+                elif a is not None:
                     a = f"{a}{i}"
                 local = a or n
                 if local in used:
